@@ -4,8 +4,11 @@ set -e
 cd "$(dirname "$0")"
 export CARGO_NET_OFFLINE=true
 python3 tools/t1_scratch.py
+python3 tools/t6_twiddles.py
 [ -f tools/t4_scan.py ] && python3 tools/t4_scan.py || true
 [ -f tools/t5_surface.py ] && python3 tools/t5_surface.py || true
+(cd harness && cargo build --release --offline)
+python3 tools/t2_bflyops.py
 (cd lean && lake build rfvmodel && lake build RFV)
 (cd harness && cargo build --release --offline && cargo build --release --offline --no-default-features --target-dir /verif/.build/cargo-none)
 (cd witness && cargo build --offline)
